@@ -8,6 +8,10 @@ BOUNDS = {}
 OUTSIDE = ""
 OBLIGATIONS = [
     Ob("int_cmp.full64", "C09/int_cmp.c", desc="Int cmp/eq/.../ge vs numeric order, three free int64", checks=["overflow"]),
+    Ob("float_cmp.full", "C09/float_cmp.c", desc="Float cmp/eq/.../ge vs IEEE order, three free non-NaN doubles"),
+    Ob("string_cmp.len4", "C09/string_cmp.c", defs=["SLEN=4"], desc="String cmp vs unsigned lexicographic order, 3 free strings <= 4 bytes", checks=["bounds", "pointer"], tiers=("quick",)),
+    Ob("string_cmp.len8", "C09/string_cmp.c", defs=["SLEN=8"], desc="String cmp vs unsigned lexicographic order, 3 free strings <= 8 bytes", checks=["bounds", "pointer"], tiers=("thorough",)),
+    Ob("struct_type_cmp", "C09/struct_cmp.c", desc="default memcmp branch on a 16-byte plain struct; Type name order on built-in types", checks=["bounds", "pointer"]),
 ]
 LEVEL_TEXT = "Bounded model checking of the real cmp/eq/... code paths: every claim is 'for all values within the stated bounds' (full 64-bit width for Int/Float, strings up to the stated length), decided by SAT; not a proof beyond the bounds."
 LEVEL_NOTE = "Trusted: cbmc's C semantics and IEEE-754 model, the harness reference orders, libc strcmp/memcmp modelled from ISO C. exception_throw replaced by a path-ending recorder."
